@@ -477,6 +477,59 @@ func init() {
 		st.writeObj(at.(*types.Pointer).Elem(), ref, av)
 		return []Value{ex.toInterface(scalarV(at, ref), sig.Results().At(0).Type(), st)}
 	})
+	reg("(github.com/scionproto/scion/pkg/addr.Host).Type", "returns the host address type (HostTypeNone, HostTypeIP, HostTypeSVC)", func(ex *Exec, st *State, c *ast.CallExpr, r *Value, a []Value) []Value {
+		sig := ex.info().TypeOf(c.Fun).(*types.Signature)
+		t := r.L[".t"]
+		if t == nil {
+			unsupp("addr.Host: type field not found")
+		}
+		return []Value{scalarV(sig.Results().At(0).Type(), t)}
+	})
+	reg("(github.com/scionproto/scion/pkg/addr.Host).IP", "panics (\"IP called on non-IP address\") unless the host address has type HostTypeIP", func(ex *Exec, st *State, c *ast.CallExpr, r *Value, a []Value) []Value {
+		sig := ex.info().TypeOf(c.Fun).(*types.Signature)
+		t := r.L[".t"]
+		if t == nil {
+			unsupp("addr.Host: type field not found")
+		}
+		ex.check(st, mkEq(t, mkInt(t.Sort, 1)), "safety:panic", c, "addr.Host.IP on a non-IP host address: "+ex.src(c.Fun))
+		st.assume(mkEq(t, mkInt(t.Sort, 1)))
+		ipv := Value{T: sig.Results().At(0).Type(), L: map[string]*Term{}}
+		for p, x := range r.L {
+			if strings.HasPrefix(p, ".ip") {
+				ipv.L[strings.TrimPrefix(p, ".ip")] = x
+			}
+		}
+		if len(ipv.L) == 0 {
+			ipv = freshValue("hostip", sig.Results().At(0).Type())
+			st.assumeValid(ipv)
+		}
+		return []Value{ipv}
+	})
+	rfm := reg("(*net.UDPConn).ReadFrom", "receives an arbitrary datagram: 0 <= n <= len(b), contents of b arbitrary, source and error arbitrary", func(ex *Exec, st *State, c *ast.CallExpr, r *Value, a []Value) []Value {
+		sig := ex.info().TypeOf(c.Fun).(*types.Signature)
+		bt := types.Typ[types.Byte]
+		b := a[0]
+		lv := &LValue{kind: lvElem, rootT: bt, ref: b.L[".ref"], idx: b.L[".off"]}
+		ex.frameCheck(lv, st, c)
+		ex.havocRange(st, bt, b.L[".ref"])
+		var res []Value
+		for i := 0; i < sig.Results().Len(); i++ {
+			v := freshValue("recvfrom", sig.Results().At(i).Type())
+			st.assumeValid(v)
+			res = append(res, v)
+		}
+		st.assume(mkAnd(mkCmp("le", mkInt(sortInt, 0), res[0].scalar()), mkCmp("le", res[0].scalar(), b.L[".len"])))
+		return res
+	})
+	rfm.writes = func(call *ast.CallExpr, info *types.Info, w *writes) {
+		w.fams["R|"+typeKey(types.Typ[types.Byte])+"|"] = true
+	}
+	reg("(github.com/scionproto/scion/pkg/slayers/path.Path).Len", "a length: result >= 0", func(ex *Exec, st *State, c *ast.CallExpr, r *Value, a []Value) []Value {
+		v := freshValue("pathlen", types.Typ[types.Int])
+		st.assumeValid(v)
+		st.assume(mkCmp("le", mkInt(sortInt, 0), v.scalar()))
+		return []Value{v}
+	})
 	// ---- byte streams: arbitrary data from the peer ----
 	{
 		mb := reg("encoding/binary.Read", "fills *data (fixed-size value or the elements of a slice) with arbitrary bytes from the stream, error arbitrary; ghost lastreadof(T) = the value read into a target of type T", func(ex *Exec, st *State, c *ast.CallExpr, r *Value, a []Value) []Value {
